@@ -173,7 +173,7 @@ def run(prog: Program, _no_c10: bool = False) -> Results:
             e_not = edges_establishing(cfg, not_ref)
             attempts = [t for t in cfg.nodes if t.ast is not None and t.kind in ("test", "stmt") and
                         any(isinstance(c, ast.Call) and callee(c) == "_assign_through_identifier" and c.args
-                            and any(al.norm(c.args[0]) == f"{x}.value" for x in by_path)
+                            and any(al.norm(a_) == f"{x}.value" for x in by_path for a_ in c.args)
                             for c in ast.walk(t.ast))]
             ok = bool(e_not) and bool(attempts) and cfg.all_paths_pass(n, cut_edges=e_not, cut_nodes=attempts)
             r2.ob(ok, {"site": key, "overwrite": norm(n.ast), "assign_through_attempt": [norm(t.ast)[:60] for t in attempts]})
